@@ -265,6 +265,8 @@ class Contract(object):
                 res = None
             env.vars['result'] = res
             for lab, c in self.ensures:
+                if lab.startswith('internal:'):
+                    continue      # a clause over ghost state of the function's own execution: proved, never assumed
                 ctx.assume(it.spec_truth(c, env))
             self._check_consistent(it)
             return res
@@ -569,6 +571,8 @@ class Registry(object):
 
     def spec(self, name):
         def deco(fn):
+            if name in self.spec_fns:
+                raise EngineError('specification function %s is defined twice (one namespace for all contract modules)' % name)
             self.spec_fns[name] = SpecFn(name, fn)
             return fn
         return deco
@@ -656,12 +660,15 @@ class FunctionUnit(object):
     """Verify one real function against its own contract."""
     kind = 'function'
 
-    def __init__(self, contract, name=None, inline=(), max_paths=None, split_depth=None):
+    def __init__(self, contract, name=None, inline=(), max_paths=None, split_depth=None, resolver=None):
         self.contract = contract
         self.name = name or contract.qualname
         self.inline = set(inline)
         self.max_paths = max_paths
         self.split_depth = split_depth
+        # resolver(it) -> Func: for functions that have no qualified name (lambdas in tables, closures);
+        # they are located in the real source on every run by the resolver
+        self.resolver = resolver
 
     def functions(self):
         return [self.contract.qualname]
@@ -674,7 +681,7 @@ class FunctionUnit(object):
         it.func_stack = []
         col = ctx.collector
         try:
-            func = resolve_function(it, c.qualname)
+            func = self.resolver(it) if self.resolver is not None else resolve_function(it, c.qualname)
             bound = c.setup(it)
             if func.closure is None and '__closure__' in bound:
                 clo = Frame(func.module)
